@@ -351,7 +351,7 @@ class Contract:
                  inline=(), inline_only=False, slice=None, class_attrs=None, writes=(), note="", shape_bound=4,
                  native=None, name=None, self_spec=None, max_shapes=60, crosscheck=True, refute=True, assumed=False,
                  native_call=None, cases_filter=None, gen=None, native_ok=True, compare_native=None, slice_note=None,
-                 not_decided=(), lemmas=None, ghost_after=None, ghost_on=(), finite=None, locate=None, curry=(), finite_native=None, lib=None, may_raise=(), abstract_nl=True, abstract_real=False, overrides=None, register=True, sum_axioms=False, writable_attrs=None):
+                 not_decided=(), lemmas=None, ghost_after=None, ghost_on=(), finite=None, locate=None, curry=(), finite_native=None, lib=None, may_raise=(), abstract_nl=True, abstract_real=False, overrides=None, register=True, sum_axioms=False, writable_attrs=None, pre_execute=None):
         self.target = target
         self.props = list(props)
         self.params = dict(params or {})
@@ -387,6 +387,7 @@ class Contract:
         self.may_raise = tuple(may_raise)  # exception classes that are acceptable outcomes without a stated condition
         self.abstract_real = abstract_real
         self.writable_attrs = dict(writable_attrs or {})   # param -> attribute names that may be written (everything else of that object is frozen)
+        self.pre_execute = pre_execute    # hook(interp, mod, fnode, args) run before the body / slice (binds closures to live-in variables)
         self.sum_axioms = sum_axioms      # add the recursive definition and extensionality of SUM to the path condition
         self.overrides = dict(overrides or {})   # callee qualname -> contract used at call sites of THIS contract only
         self.abstract_nl = abstract_nl    # False: integer * // % stay interpreted (small nonlinear problems, e.g. bounded case splits)
@@ -469,6 +470,8 @@ class Contract:
 
     def execute(self, interp, mod, fnode, args):
         """run the function body (or the slice) on `args`"""
+        if self.pre_execute is not None:
+            self.pre_execute(interp, mod, fnode, args)
         env = Env(None)
         for k, v in args.items():
             env.set(k, v)
